@@ -117,7 +117,13 @@ class Library:
             MethodSpec("cal", rand_params(r, 2), "Cal"),
             MethodSpec("isGood", rand_params(r, 1), "bool"),
             MethodSpec("untyped", rand_params(r, 2), None),
-        ], class_cb=maybe_cb(r, "Jet", 0.4), props=[("getAttr", CbDesc("Jet.getAttr", {"metadata_type": "attr"}, rename="getAttrFloat"), "float")])
+        ], class_cb=maybe_cb(r, "Jet", 0.4), props=[
+            # a parameterized property: j.getAttr[<literal>](args).  Its callback may attach MetaData, rename the method
+            # (the documented use: getAttr[float] -> getAttrFloat) and append an argument; it always drops the subscript
+            ("getAttr", CbDesc("Jet.getAttr", r.choice([{"metadata_type": "attr"}, {"metadata_type": "attr", "n": r.randint(0, 9)}, None]),
+                               rename=r.choice(["getAttrFloat", "getAttrFloat", None]), add_arg=r.choice([None, None, 5, "prm"])), "float"),
+            # declared as a plain property, not decorated with func_adl_parameterized_call: using it with [..](..) is refused
+            ("rawAttr", None, "float")])
         # class-level callbacks along an inheritance chain: a decorated class that inherits a method from an undecorated
         # base fires its own callback for it; an undecorated subclass inherits its base's
         vec = ClassSpec("Vec", [MethodSpec("lead", rand_params(r, 1), "T"), MethodSpec("size", [], "int")], tparams=["T"], base="Iterable[T]",
@@ -378,6 +384,59 @@ class TypedGen:
             ty = tbind[ty]
         return TExpr(f"{recv.src}.{m.name}({', '.join(src_args)})", f"{recv.norm}.{name}({', '.join(norm_args)})", ty, log, md, refusal)
 
+    PARAM_LITERALS = ["'pt'", "22", "-1", "1.5", "True", "None", "('a', 1)", "['x', 'y']", "{'k': 1}", "'it''s'", "'a\\nb'", "'j.pt()'",
+                      "(1, (2, 'z'))", "b'ab'", "'getAttrFloat'", "0"]
+
+    def param_call(self, scope, d) -> Optional[TExpr]:
+        """j.getAttr[<literal>](args…): a parameterized property (C09).  The callback receives the call WITHOUT the subscript
+        and the literal's VALUE; what it returns is what is emitted.  Also: an undecorated property and a subscript that is
+        not a literal (both refused with ValueError)."""
+        rng = self.rng
+        try:
+            j = self.obj("Jet", scope, d - 1)
+        except RuntimeError:
+            return None
+        if j.ty != "Jet":
+            return None
+        jet = self.lib.classes["Jet"]
+        r = rng.random()
+        pname, pcb, pret = jet.props[0]
+        refusal = j.refusal
+        lit = rng.choice(self.PARAM_LITERALS)
+        if r < 0.08:
+            pname, pcb, pret = jet.props[1]
+            refusal = refusal or "Property was not decorated with func_adl_parameterized_call"
+        elif r < 0.16:
+            names = [n for n, _ in self.visible(scope)]
+            lit = rng.choice([f"{names[0]}", "abs(1)", f"({names[0]}, 1)", "1 + 1"])
+            refusal = refusal or "the subscript of a parameterized property must be a literal"
+        nargs = rng.choice([0, 1, 1, 2])
+        args = [self.arg_expr(rng.choice(["int", "float", "str"]), scope, d - 1) for _ in range(nargs)]
+        kw = None
+        if rng.random() < 0.2:
+            kw = ("unit", self.lit("str"))
+        log, md = list(j.log), list(j.md)
+        for a in args + ([kw[1]] if kw else []):
+            log += a.log
+            md += a.md
+            refusal = refusal or a.refusal
+        src_args = [a.src for a in args] + ([f"{kw[0]}={kw[1].src}"] if kw else [])
+        norm_args = [a.norm for a in args]
+        name = pname
+        if pcb is not None and refusal is None:
+            import ast as _ast
+
+            # the tag of a parameterized-property callback carries the VALUE the callback must receive (C09: "by value")
+            log.append(pcb.tag + "\x00" + repr(_ast.literal_eval(lit)))
+            if pcb.md is not None:
+                md.append(pcb.md)
+            if pcb.rename:
+                name = pcb.rename
+            if pcb.add_arg is not None:
+                norm_args.append(repr(pcb.add_arg))
+        norm_args += [f"{kw[0]}={kw[1].norm}"] if kw else []
+        return TExpr(f"{j.src}.{pname}[{lit}]({', '.join(src_args)})", f"{j.norm}.{name}({', '.join(norm_args)})", "float", log, md, refusal)
+
     def obj(self, cls_name: str, scope, d) -> TExpr:
         "an expression of class type cls_name"
         vs = [n for n, t in self.visible(scope) if t == cls_name]
@@ -522,6 +581,10 @@ class TypedGen:
         lib = self.lib
         if d > 0 and rng.random() < 0.08:
             c = self.called(scope, d, lambda sc: self.scalar(sc, d - 1, want))
+            if c is not None:
+                return c
+        if want == "float" and d > 0 and rng.random() < 0.1:
+            c = self.param_call(scope, d)
             if c is not None:
                 return c
         objs = [(n, t) for n, t in self.visible(scope) if t in lib.classes]
